@@ -1,6 +1,7 @@
 mod alloc;
 mod check;
 mod engine;
+mod fam_c13;
 mod fam_c17;
 mod families;
 mod generate;
